@@ -90,6 +90,16 @@ impl LibUsbDeviceHandle {
         Ok(self.0.clear_halt(endpoint)?)
     }
 
+    /// What `AsyncPool` hands to `AsyncTransfer::new_bulk` in place of the raw libusb handle.
+    pub(super) fn as_raw(&self) -> Arc<dyn VerifUsb> {
+        self.0.clone()
+    }
+
+    /// What `AsyncPool` hands to `poll_completed` in place of the libusb context.
+    pub(super) fn context(&self) -> &Self {
+        self
+    }
+
     pub(super) fn write_control(
         &self,
         request_type: u8,
@@ -105,9 +115,86 @@ impl LibUsbDeviceHandle {
     }
 }
 
-/// A pending fake transfer of `AsyncPool`.
-pub(super) struct VerifTransfer {
-    pub(super) id: u64,
-    pub(super) ptr: *mut u8,
-    pub(super) len: usize,
+/// Stand-in for the libusb transfer of `async_read`: `AsyncPool` (queue discipline, polling order,
+/// cancellation order, drop) runs unmodified on top of it.
+pub(super) struct AsyncTransfer {
+    usb: Arc<dyn VerifUsb>,
+    endpoint: u8,
+    ptr: *mut u8,
+    len: usize,
+    state: VerifTransferState,
+}
+
+/// Completion state shared between `poll_completed` and `handle_completed`.
+pub(super) struct VerifTransferState {
+    usb: Arc<dyn VerifUsb>,
+    id: std::cell::Cell<Option<u64>>,
+    result: std::cell::RefCell<Option<std::result::Result<Vec<u8>, LibUsbError>>>,
+}
+
+impl AsyncTransfer {
+    /// Invariant: Caller must ensure `buffer` outlives this transfer.
+    pub(super) unsafe fn new_bulk(usb: Arc<dyn VerifUsb>, endpoint: u8, buffer: &mut [u8]) -> Self {
+        Self {
+            usb: usb.clone(),
+            endpoint,
+            ptr: buffer.as_mut_ptr(),
+            len: buffer.len(),
+            state: VerifTransferState {
+                usb,
+                id: std::cell::Cell::new(None),
+                result: std::cell::RefCell::new(None),
+            },
+        }
+    }
+
+    pub(super) fn completed_flag(&self) -> &VerifTransferState {
+        &self.state
+    }
+
+    pub(super) fn submit(&mut self) -> Result<()> {
+        let id = self.usb.submit_bulk(self.endpoint, self.len)?;
+        self.state.id.set(Some(id));
+        Ok(())
+    }
+
+    pub(super) fn cancel(&mut self) {
+        if let Some(id) = self.state.id.get() {
+            self.usb.cancel_bulk(id);
+        }
+    }
+
+    pub(super) fn handle_completed(&mut self) -> Result<usize> {
+        let result = self.state.result.borrow_mut().take();
+        let data = result.expect("transfer must be completed")?;
+        if data.len() > self.len {
+            return Err(LibUsbError::Overflow.into());
+        }
+        // Safety: same contract as the libusb path, the buffer outlives the transfer.
+        unsafe {
+            std::ptr::copy_nonoverlapping(data.as_ptr(), self.ptr, data.len());
+        }
+        Ok(data.len())
+    }
+}
+
+/// Stand-in for the libusb event loop: waits up to `timeout` for the completion of one transfer.
+pub(super) fn poll_completed(
+    _ctx: &LibUsbDeviceHandle,
+    timeout: Duration,
+    completed: &VerifTransferState,
+) -> Result<bool> {
+    if completed.result.borrow().is_some() {
+        return Ok(true);
+    }
+    let Some(id) = completed.id.get() else {
+        return Ok(false);
+    };
+    match completed.usb.poll_bulk(id, timeout) {
+        VerifPoll::Pending => Ok(false),
+        VerifPoll::Completed(res) => {
+            *completed.result.borrow_mut() = Some(res);
+            Ok(true)
+        }
+    }
 }
